@@ -75,6 +75,14 @@ static void run_case(const std::string& cid, Toks& t) {
             mute();
             ParMultilevel* ml = new ParRugeStubenSolver(0.25, RS, Direct, Classical, Jacobi);
             ml->max_coarse = 3; ml->num_smooth_sweeps = 1; ml->relax_weight = 0.75; ml->track_times = false;
+            if (cid[0] == 'w') {
+                // deliberately weak (still symmetric positive definite) preconditioner: the hierarchy of A + 3 diag(A), so
+                // that PCG on A needs many iterations (the oracle measures M from the hierarchy actually used)
+                ParCSRMatrix* A2 = A->copy();
+                for (int i = 0; i < A2->local_num_rows; i++) for (int k = A2->on_proc->idx1[i]; k < A2->on_proc->idx1[i + 1]; k++)
+                    if (A2->on_proc_column_map[A2->on_proc->idx2[k]] == A2->local_row_map[i]) A2->on_proc->vals[k] *= 4.0;
+                ml->setup(A2);
+            } else
             ml->setup(A);
             // the preconditioner as a matrix: column j = cycle(0, e_j)
             std::vector<double> M(s.n * s.n, 0.0);   // row-major, gathered on every rank
